@@ -5,6 +5,7 @@ package c10
 
 import (
 	"fmt"
+	"math"
 	"math/big"
 	"net/http"
 	"net/http/httptest"
@@ -464,6 +465,24 @@ func continuations(m *lib.Model[*sys], s0 *sys, backoff time.Duration, tier stri
 			rep.Count("persistent_outlier_others_at_cap")
 		}
 	}
+	// (c) a meter that reports a non-finite rating (0/0 of a meter that has seen nothing) next to a real outlier:
+	// whatever the rebalancer makes of the NaN server, the adjustment must not increase the outlier's share
+	if len(mem) >= 3 {
+		pairs := [][2]int{{mem[0], mem[1]}, {mem[0], mem[len(mem)-1]}, {mem[len(mem)-1], mem[0]}}
+		for _, pr := range pairs {
+			s, _ := m.Build(hist)
+			var r [nServers]float64
+			r[pr[0]], r[pr[1]] = math.NaN(), 1
+			clock.Advance(step)
+			_, vs := s.request(r, -1)
+			rep.Count("non_finite_rating_continuations")
+			for _, v := range vs {
+				if v.key == "C10:outlier-share-increased" {
+					rep.Violate("C10:outlier-share-increased:non-finite-rating-present", v.detail, what(fmt.Sprintf("Advance(%v); Req with s%d rated NaN, s%d rated 1, others 0", step, pr[0]+1, pr[1]+1)))
+				}
+			}
+		}
+	}
 	// (b) once ratings stop differing the weights return to the configured proportions within six adjustments
 	s, _ := m.Build(hist)
 	var eq [nServers]float64
@@ -484,9 +503,9 @@ func continuations(m *lib.Model[*sys], s0 *sys, backoff time.Duration, tier stri
 }
 
 func Run(tier string, sh lib.Shard, rep *lib.Report) {
-	rep.Rule = "BFS to FIXPOINT (relative-time keys; balancer rotation position and scripted inputs projected out) over Req(ratings in {0,0.4,1}^3, readiness)/Advance/Upsert/Remove on the real Rebalancer(RoundRobin) with scripted meters; invariants on every transition, two bounded-liveness continuations from every reachable state; non-trivial = adjustments observed"
+	rep.Rule = "BFS to FIXPOINT (relative-time keys; balancer rotation position and scripted inputs projected out) over Req(ratings in {0,0.4,1}^3, readiness)/Advance/Upsert/Remove on the real Rebalancer(RoundRobin) with scripted meters; invariants on every transition, two bounded-liveness continuations and a non-finite-rating probe (NaN next to a real outlier) from every reachable state; non-trivial = adjustments observed"
 	rep.Assume("A2", "projection of the round-robin iterator: membership and weights do not read it")
-	rep.Require("adjustments", "membership_changes", "persistent_outlier_continuations", "convergence_continuations", "persistent_outlier_others_at_cap")
+	rep.Require("adjustments", "membership_changes", "persistent_outlier_continuations", "convergence_continuations", "persistent_outlier_others_at_cap", "non_finite_rating_continuations")
 	backoffs := []time.Duration{time.Second, 10 * time.Second}
 	for _, b := range backoffs {
 		m := model(b, tier)
